@@ -74,18 +74,18 @@ P = {
 ADD = {
  "C01": ("declaration-binding step order; relational-operator operand order and LeftFirst flag; enumeration-under-mutation rule",
          "Function entry binds parameters, then the arguments object, then function declarations, then vars (ES5 10.5); each relational arm passes its operands in the prescribed order with the prescribed LeftFirst flag; no writer shifts the property-order list in place under a running enumeration."),
- "C02": ("constant-index guard rule in the parser; prototype payload agreement",
-         "Every constant index or slice bound on parser input is dominated by a length test that covers it; the internal value of each primitive-wrapper / Date / RegExp prototype has the Go type its constructor stores."),
+ "C02": ("typestate of the accessor placeholder; unchecked-assertion census extended to parser/ast/file; typed-nil census; constant-index guard rule in the parser; prototype payload agreement",
+         "The placeholder object nilGetSetObject never reaches the property table; no unchecked type assertion in the parser packages can fail on script-supplied text (Function constructor). Every constant index or slice bound on parser input is dominated by a length test that covers it; the internal value of each primitive-wrapper / Date / RegExp prototype has the Go type its constructor stores."),
  "C03": ("interprocedural typestate analysis of the allowIn flag; restricted-production rule; dead flag-store rule",
          "After return/break/continue/throw and before a postfix ++/-- the operand is taken only when the scanner saw no line terminator (7.9.1). Every place the grammar says Expression/AssignmentExpression is entered only with allowIn=true, the for initialiser only with false, and every writer of the flag restores it; no store to a scanner/parser flag is overwritten before it can be read."),
- "C04": ("early-error rule for regular expression literals; constant-index guard rule",
-         "A regular expression literal is translated and compiled at parse time and both errors are reported; constant indexing of parser input is length-guarded."),
+ "C04": ("totality proof of the span methods (every parser store into an indexed slice field proved non-empty); position-field reader/writer agreement; typed-nil census; early-error rule for regular expression literals; constant-index guard rule",
+         "Idx0/Idx1 of every node type are total on the trees the parser builds and every position field they read is set at every construction site; no possibly-nil pointer is converted to a node interface. A regular expression literal is translated and compiled at parse time and both errors are reported; constant indexing of parser input is length-guarded."),
  "C05": ("abstract execution of the == case analysis over all 36 kind pairs; typeof table; finite evaluation of the relational outcome mapping; argument-conversion table; sibling equality-kind table; positive/negative corpus for the StringNumericLiteral guard",
          "For every ordered pair of kinds the case analysis of == reaches exactly the outcomes the ten steps of 11.9.3 reach; typeof maps each kind to the string of table 20. The four relational operators map the three-valued comparison outcome as ES5 11.8.1-4 prescribe (undefined -> false); sameValue / strict equality / == agree on the six kinds and only SameValue distinguishes the zeros; the ToNumber grammar guard accepts every ES5 form and rejects every Go-only form."),
  "C06": ("argument-conversion table; undefined-default rule",
          "parseInt's radix is converted with ToInt32, toFixed/toExponential/toPrecision/toString arguments with ToInteger, and an explicit undefined takes the default where the clause says so."),
- "C07": ("[[CanPut]] consultation order; integrity-function attribute table; enumeration-under-mutation rule; exotic [[GetOwnProperty]] fallback; SameValue call-site rule",
-         "object.extensible is consulted only where 8.12.4 consults it; freeze/seal/preventExtensions/isFrozen/isSealed/isExtensible touch exactly the attributes of their algorithm and freeze clears [[Writable]] independently of [[Configurable]]; the enumeration primitive re-validates names and no writer shifts the order list in place; every exotic [[GetOwnProperty]] answers 'absent' only after the ordinary lookup; [[DefineOwnProperty]] compares with SameValue."),
+ "C07": ("ToPropertyDescriptor accessor-flag must-assign; placeholder typestate; [[CanPut]] consultation order; integrity-function attribute table; enumeration-under-mutation rule; exotic [[GetOwnProperty]] fallback; SameValue call-site rule",
+         "A descriptor with a get or set field (undefined included) is an accessor descriptor on every path; object.extensible is consulted only where 8.12.4 consults it; freeze/seal/preventExtensions/isFrozen/isSealed/isExtensible touch exactly the attributes of their algorithm and freeze clears [[Writable]] independently of [[Configurable]]; the enumeration primitive re-validates names and no writer shifts the order list in place; every exotic [[GetOwnProperty]] answers 'absent' only after the ordinary lookup; [[DefineOwnProperty]] compares with SameValue."),
  "C08": ("undefined-default rule; length-put must-pass-through rule; argument-conversion table; strict-equality call-site rule",
          "slice/splice/join/sort arguments are converted / defaulted as their clauses say; pop push shift splice unshift end every path with Put(length, n, true); indexOf/lastIndexOf compare with ===."),
  "C09": ("undefined-default rule; argument-conversion table; exotic [[GetOwnProperty]] fallback",
@@ -96,7 +96,7 @@ ADD = {
  "C13": ("argument-conversion table for Math and the global functions; signed-zero obligation for max/min; dead NaN-test rule", "Every Math function converts every argument with ToNumber and nothing else; Math.max/min order +0 above -0 (math.Max/Min or a sign-bit test)."),
  "C14": ("prototype payload agreement", "Boolean/Number/String/Date/RegExp.prototype hold an internal value of the Go type their constructor stores."),
  "C15": ("wrapping-conversion census", "Every conversion from an unsigned 64-bit-wide integer to a signed one is range-guarded or reviewed."),
- "C16": ("wrapping-conversion census; captured-buffer rule for native function closures", "No bridged call shares an argument buffer allocated outside the per-call closure; unsigned-to-signed 64-bit conversions are range-guarded."),
+ "C16": ("two-sided range test in every integer arm of toReflectValue; wrapping-conversion census; captured-buffer rule for native function closures", "No bridged call shares an argument buffer allocated outside the per-call closure; unsigned-to-signed 64-bit conversions are range-guarded."),
  "C17": ("copy-loop exhaustion rule; File immutability", "No copy loop in a clone function leaves early; a file.File is never written after construction."),
  "C19": ("frame-address escape rule", "Error traces and Context stack traces hold value copies of frames: the address of a live scope's frame is never stored, appended or passed on; the copy's error prototypes are wired positionally."),
  "C20": ("File immutability; frame-address escape rule; captured-buffer rule", "A Script's file.File is never written after construction (no lazily filled cache); no native closure writes a buffer captured from outside."),
